@@ -90,13 +90,13 @@ class Ctx:
         self.functions_analysed.add(f.qualname)
         return build_cfg(f)
 
-    def icfg(self, f: FuncInfo | str, exclude: tuple[str, ...] = (), depth: int = 3, include_async: bool = True):
+    def icfg(self, f: FuncInfo | str, exclude: tuple[str, ...] = (), depth: int = 3, include_async: bool = True, substitute: bool = False):
         """f's CFG with the private helpers of its own class / module inlined (helper extraction tolerant). Cached."""
         from . import flow
 
         if isinstance(f, str):
             f = self.func(f)
-        key = (f.qualname, exclude, depth, include_async)
+        key = (f.qualname, exclude, depth, include_async, substitute)
         cache = self.__dict__.setdefault("_icfg_cache", {})
         if key in cache:
             return cache[key]
@@ -107,7 +107,7 @@ class Ctx:
         def policy(n, cal):
             return cal.qualname in helpers and cal.name not in exclude and (include_async or not cal.is_async)
 
-        g = flow.inline(f, self.res, depth, policy)
+        g = flow.inline(f, self.res, depth, policy, substitute=substitute)
         cache[key] = g
         self.functions_analysed.add(f.qualname)
         return g
